@@ -158,7 +158,7 @@ impl RK23 {
             None => {
                 evals.ode += 1;
                 hinit(
-                    f, x, &y, posneg, &k1, &mut k2, &mut k3, 3, hmax, &atol, &rtol,
+                    f, x, &y, posneg, &k1, &mut k2, &mut k3, 3, hmax.abs().min((xend - x).abs()), &atol, &rtol,
                 )
             }
         };
